@@ -23,14 +23,13 @@ SNAPS = ["some-snap", "some-other-snap", "kernel"]
 KERNEL = "kernel"
 
 INVS = {
-    "C10": ["C10_Restored", "C10_BlockRestoredModuloAsymmetry"],
+    "C10": ["C10_Restored", "C10_BlockRestored"],
     "C11": ["C11_Consistent"],
     "C12": ["C12_Retain"],
     "C13": ["C13_Revert", "C13_RevertPre"],
 }
 # clauses of the statement that the spec (= the code, by conformance) violates: checked separately, replayed
 STRICT = {
-    "C10": [("C10_BlockRestored", "SnapSeq_mc_c10strict.cfg")],
     "C12": [("C12_InUseStrict", "SnapSeq_mc_c12strict.cfg")],
 }
 IRR = ("install", "refresh", "revert")
@@ -79,6 +78,10 @@ def _constants_of(cfg):
 def model_check(ctx, prop):
     # the quick config always runs with -coverage 1 (vacuity guard, per-action counts); the big one without (2x cost)
     cfgs = ["SnapSeq_mc_quick.cfg"] if ctx.quick else ["SnapSeq_mc_quick.cfg", "SnapSeq_mc_thorough.cfg"]
+    if prop == "C10":
+        # regression probe for the fixed RevertStatus defect (2565626): 4 operations on 2 revisions reach
+        # install; refresh; revert(NotBlocked); failed refresh-to-kept, which MaxOps=3 does not
+        cfgs.append("SnapSeq_mc_c10strict.cfg")
     if prop == "C12":
         cfgs.append(ctx.pick("SnapSeq_mc_kernel_quick.cfg", "SnapSeq_mc_kernel.cfg"))     # boot.InUse answers
     total = {"states": 0, "transitions": 0, "coverage": {}, "constants": {}, "wall": 0.0, "depth": 0}
